@@ -1294,3 +1294,560 @@ Proof.
   unfold rev180. rewrite map_rev, rev_involutive, map_map.
   rewrite map_ext with (g := fun r => r) by (intros r; apply rev_involutive). apply map_id.
 Qed.
+
+(* ================================================================== hypotheses restricted to blocks of the
+   automaton's block size: a rule written for exactly b cells (b1 x b2 cells) *)
+
+Lemma apply_blocks_ext St (r1 r2 : block_rule St) store cells t : forall blocks s arr,
+  (forall s blk, In blk blocks -> r1 s (gather cells blk) t = r2 s (gather cells blk) t) ->
+  apply_blocks r1 store s cells arr blocks t = apply_blocks r2 store s cells arr blocks t.
+Proof.
+  induction blocks as [|blk rest IH]; intros s arr H; [reflexivity|].
+  cbn [apply_blocks]. rewrite (H s blk) by (left; reflexivity).
+  destruct (r2 s (gather cells blk) t) as [s1 res]. apply IH. intros s' blk' Hin. apply H. right. exact Hin.
+Qed.
+
+Lemma blocks_at_len b m t blk : 1 <= b -> In blk (blocks_at (m * b) b t) -> length blk = b.
+Proof.
+  intros Hb Hin. apply In_nth with (d := []) in Hin. destruct Hin as [j [Hj <-]].
+  unfold blocks_at in *. destruct (t mod 2 =? 0).
+  - rewrite blocks_even_length in Hj by exact Hb. rewrite blocks_even_nth by assumption.
+    rewrite map_length. apply seq_length.
+  - rewrite blocks_odd_length in Hj by exact Hb. rewrite blocks_odd_nth by assumption. apply seq_length.
+Qed.
+
+Lemma gather_length cells blk : length (gather cells blk) = length blk.
+Proof. apply map_length. Qed.
+
+Lemma step_block_ext St (r1 r2 : block_rule St) store b m s cells t : 1 <= b -> length cells = m * b ->
+  (forall s x, length x = b -> r1 s x t = r2 s x t) ->
+  step_block r1 store b s cells t = step_block r2 store b s cells t.
+Proof.
+  intros Hb Hl H. unfold step_block. apply apply_blocks_ext. intros s' blk Hin. apply H.
+  rewrite gather_length. rewrite Hl in Hin. eapply blocks_at_len; eassumption.
+Qed.
+
+Lemma iter_steps_ext_1d St (r1 r2 : block_rule St) store b m : 1 <= b ->
+  (forall s x t, length x = b -> r1 s x t = r2 s x t) ->
+  forall n s cur t, length cur = m * b ->
+  iter_steps (step_block r1 store b) n s cur t = iter_steps (step_block r2 store b) n s cur t.
+Proof.
+  intros Hb H. induction n as [|n IH]; intros s cur t Hl; [reflexivity|].
+  cbn [iter_steps]. rewrite (step_block_ext St r1 r2 store b m s cur t Hb Hl) by (intros; apply H; assumption).
+  pose proof (step_block_length St r2 store b s cur t) as Hn.
+  destruct (step_block r2 store b s cur t) as [s1 nxt]. cbn [snd] in Hn.
+  rewrite IH by (rewrite Hn; exact Hl). reflexivity.
+Qed.
+
+Lemma evolve_block_ext St (r1 r2 : block_rule St) store b m s0 hist T : 1 <= b ->
+  length (last hist []) = m * b ->
+  (forall s x t, length x = b -> r1 s x t = r2 s x t) ->
+  evolve_block r1 store b s0 hist T = evolve_block r2 store b s0 hist T.
+Proof.
+  intros Hb Hl H. unfold evolve_block. destruct hist as [|h0 hist']; [reflexivity|].
+  destruct (b =? 0); [reflexivity|]. destruct (negb _); [reflexivity|]. destruct (_ =? 0); [reflexivity|].
+  unfold evolve_fixed. destruct T as [|k]; [reflexivity|].
+  rewrite (iter_steps_ext_1d St r1 r2 store b m Hb H k s0 _ 1 Hl). reflexivity.
+Qed.
+
+(* the rule, made total: identity outside its block size *)
+Definition guard_b {St} (b : nat) (rule : block_rule St) : block_rule St :=
+  fun s x t => if length x =? b then rule s x t else (s, x).
+Definition guard_f (b : nat) (f : list Z -> nat -> list Z) : list Z -> nat -> list Z :=
+  fun x t => if length x =? b then f x t else x.
+
+Lemma block_conserves_1d' St (rule : block_rule St) b m s cells t :
+  1 <= b -> length cells = m * b ->
+  (forall s x t, length x = b -> Permutation (snd (rule s x t)) x) ->
+  Permutation (snd (step_block rule id_store b s cells t)) cells.
+Proof.
+  intros Hb Hl H.
+  rewrite (step_block_ext St rule (guard_b b rule) id_store b m s cells t Hb Hl)
+    by (intros s' x Hx; unfold guard_b; rewrite Hx, Nat.eqb_refl; reflexivity).
+  apply block_conserves_1d; [exact Hb|]. intros s' x t'. unfold guard_b.
+  destruct (length x =? b) eqn:E; [apply H; apply Nat.eqb_eq; exact E|apply Permutation_refl].
+Qed.
+
+Lemma evolve_block_conserves' St (rule : block_rule St) b m s0 hist T s rows : 1 <= b ->
+  length (last hist []) = m * b ->
+  (forall s x t, length x = b -> Permutation (snd (rule s x t)) x) ->
+  evolve_block rule id_store b s0 hist T = Ok (s, rows) ->
+  exists news, rows = hist ++ news /\ length news = T - 1 /\ Forall (fun r => Permutation r (last hist [])) news.
+Proof.
+  intros Hb Hl H.
+  rewrite (evolve_block_ext St rule (guard_b b rule) id_store b m s0 hist T Hb Hl)
+    by (intros s' x t' Hx; unfold guard_b; rewrite Hx, Nat.eqb_refl; reflexivity).
+  apply evolve_block_conserves; [exact Hb|]. intros s' x t'. unfold guard_b.
+  destruct (length x =? b) eqn:E; [apply H; apply Nat.eqb_eq; exact E|apply Permutation_refl].
+Qed.
+
+Lemma guard_f_length b f : (forall x t, length x = b -> length (f x t) = b) ->
+  forall x t, length (guard_f b f x t) = length x.
+Proof.
+  intros H x t. unfold guard_f. destruct (length x =? b) eqn:E; [|reflexivity].
+  apply Nat.eqb_eq in E. rewrite H by exact E. symmetry. exact E.
+Qed.
+
+Lemma guard_f_inverse b f g : (forall x t, length x = b -> length (f x t) = b) ->
+  (forall x t, length x = b -> g (f x t) t = x) ->
+  forall x t, guard_f b g (guard_f b f x t) t = x.
+Proof.
+  intros Hf Hgf x t. unfold guard_f. destruct (length x =? b) eqn:E.
+  - apply Nat.eqb_eq in E. rewrite (Hf x t E), Nat.eqb_refl. apply Hgf. exact E.
+  - rewrite E. reflexivity.
+Qed.
+
+Lemma step_pure_guard f b m cells t : 1 <= b -> length cells = m * b ->
+  step_block (pure_b f) id_store b tt cells t = step_block (pure_b (guard_f b f)) id_store b tt cells t.
+Proof.
+  intros Hb Hl. apply (step_block_ext unit _ _ id_store b m tt cells t Hb Hl).
+  intros s x Hx. unfold pure_b, guard_f. rewrite Hx, Nat.eqb_refl. reflexivity.
+Qed.
+
+Lemma block_reversible_1d' (f g : list Z -> nat -> list Z) b m cells t :
+  1 <= b -> length cells = m * b ->
+  (forall x t, length x = b -> length (f x t) = b) -> (forall x t, length x = b -> length (g x t) = b) ->
+  (forall x t, length x = b -> g (f x t) t = x) ->
+  snd (step_block (pure_b g) id_store b tt (snd (step_block (pure_b f) id_store b tt cells t)) t) = cells.
+Proof.
+  intros Hb Hl Hf Hg Hgf.
+  rewrite (step_pure_guard f b m cells t Hb Hl).
+  rewrite (step_pure_guard g b m _ t Hb) by (rewrite step_block_length; exact Hl).
+  apply block_reversible_1d; [exact Hb|apply guard_f_length; exact Hf|apply guard_f_length; exact Hg|].
+  apply guard_f_inverse; assumption.
+Qed.
+
+(* ---- 2D *)
+Lemma blocks2_at_dims R C b1 b2 t rc : In rc (blocks2_at R C b1 b2 t) -> length (fst rc) = b1 /\ length (snd rc) = b2.
+Proof.
+  assert (Hodd : forall rc, In rc (blocks2_odd R C b1 b2) -> length (fst rc) = b1 /\ length (snd rc) = b2).
+  { intros rc' H. unfold blocks2_odd in H. apply in_flat_map in H. destruct H as [r [_ H]].
+    apply in_map_iff in H. destruct H as [c [<- _]]. cbn [fst snd]. rewrite !seq_length. split; reflexivity. }
+  unfold blocks2_at, blocks2_even. destruct (t mod 2 =? 0); [|apply Hodd].
+  intros H. apply in_map_iff in H. destruct H as [rc' [<- H]]. unfold shift_block. cbn [fst snd].
+  rewrite !map_length. apply Hodd. exact H.
+Qed.
+
+Lemma apply_blocks2_ext St (r1 r2 : block_rule2 St) store g t : forall blocks s arr,
+  (forall s rc, In rc blocks -> r1 s (gather2 g rc) t = r2 s (gather2 g rc) t) ->
+  apply_blocks2 r1 store s g arr blocks t = apply_blocks2 r2 store s g arr blocks t.
+Proof.
+  induction blocks as [|rc rest IH]; intros s arr H; [reflexivity|].
+  cbn [apply_blocks2]. rewrite (H s rc) by (left; reflexivity).
+  destruct (r2 s (gather2 g rc) t) as [s1 v]. destruct (bcast _ _ v); [|reflexivity].
+  apply IH. intros s' rc' Hin. apply H. right. exact Hin.
+Qed.
+
+Lemma step_block2d_ext St (r1 r2 : block_rule2 St) store b1 b2 sb g t :
+  (forall s x, shape b1 b2 x -> r1 s x t = r2 s x t) ->
+  step_block2d r1 store b1 b2 sb g t = step_block2d r2 store b1 b2 sb g t.
+Proof.
+  intros H. unfold step_block2d. destruct (snd sb); [reflexivity|].
+  rewrite (apply_blocks2_ext St r1 r2 store g t); [reflexivity|].
+  intros s rc Hin. apply H. destruct (blocks2_at_dims _ _ _ _ _ _ Hin) as [<- <-]. apply gather2_shape.
+Qed.
+
+Lemma iter_steps_ext_2d St (r1 r2 : block_rule2 St) store b1 b2 :
+  (forall s x t, shape b1 b2 x -> r1 s x t = r2 s x t) ->
+  forall n sb cur t,
+  iter_steps (step_block2d r1 store b1 b2) n sb cur t = iter_steps (step_block2d r2 store b1 b2) n sb cur t.
+Proof.
+  intros H. induction n as [|n IH]; intros sb cur t; [reflexivity|].
+  cbn [iter_steps]. rewrite (step_block2d_ext St r1 r2 store b1 b2 sb cur t) by (intros; apply H; assumption).
+  destruct (step_block2d r2 store b1 b2 sb cur t) as [sb1 nxt]. rewrite IH. reflexivity.
+Qed.
+
+Lemma evolve2d_block_ext St (r1 r2 : block_rule2 St) store b1 b2 s0 hist T :
+  (forall s x t, shape b1 b2 x -> r1 s x t = r2 s x t) ->
+  evolve2d_block r1 store b1 b2 s0 hist T = evolve2d_block r2 store b1 b2 s0 hist T.
+Proof.
+  intros H. unfold evolve2d_block. destruct hist as [|h0 hist']; [reflexivity|]. cbv zeta.
+  destruct (T =? 0); [reflexivity|]. destruct (_ || _); [reflexivity|]. destruct (_ || _); [reflexivity|].
+  unfold evolve_fixed. destruct T as [|k]; [reflexivity|].
+  rewrite (iter_steps_ext_2d St r1 r2 store b1 b2 H). reflexivity.
+Qed.
+
+Definition guard_b2 {St} (b1 b2 : nat) (rule : block_rule2 St) : block_rule2 St :=
+  fun s x t => if shape_eqb b1 b2 x then rule s x t else (s, x).
+Definition guard_f2 (b1 b2 : nat) (f : grid2 -> nat -> grid2) : grid2 -> nat -> grid2 :=
+  fun x t => if shape_eqb b1 b2 x then f x t else x.
+
+Lemma shape_unique h w h' w' x : 1 <= h -> shape h w x -> shape h' w' x -> h = h' /\ w = w'.
+Proof.
+  intros Hh [H1 H2] [H1' H2']. split; [congruence|].
+  destruct x as [|r x]; [cbn in H1; lia|]. inversion H2; inversion H2'; subst. congruence.
+Qed.
+
+Lemma guard_b2_eq St (rule : block_rule2 St) b1 b2 s x t : shape b1 b2 x -> rule s x t = guard_b2 b1 b2 rule s x t.
+Proof. intros H. unfold guard_b2. apply shape_eqb_iff in H. rewrite H. reflexivity. Qed.
+
+Lemma guard_b2_shape St (rule : block_rule2 St) b1 b2 : 1 <= b1 ->
+  (forall s x t, shape b1 b2 x -> shape b1 b2 (snd (rule s x t))) ->
+  forall s x t h w, shape h w x -> shape h w (snd (guard_b2 b1 b2 rule s x t)).
+Proof.
+  intros Hb H s x t h w Hx. unfold guard_b2. destruct (shape_eqb b1 b2 x) eqn:E; [|exact Hx].
+  apply shape_eqb_iff in E. destruct (shape_unique b1 b2 h w x Hb E Hx) as [<- <-]. apply H. exact E.
+Qed.
+
+Lemma guard_b2_perm St (rule : block_rule2 St) b1 b2 :
+  (forall s x t, shape b1 b2 x -> Permutation (concat (snd (rule s x t))) (concat x)) ->
+  forall s x t, Permutation (concat (snd (guard_b2 b1 b2 rule s x t))) (concat x).
+Proof.
+  intros H s x t. unfold guard_b2. destruct (shape_eqb b1 b2 x) eqn:E; [|apply Permutation_refl].
+  apply H. apply shape_eqb_iff. exact E.
+Qed.
+
+Lemma block_conserves_2d' St (rule : block_rule2 St) b1 b2 m1 m2 s g t :
+  1 <= b1 -> 1 <= b2 -> 1 <= m1 -> 1 <= m2 -> shape (m1 * b1) (m2 * b2) g ->
+  (forall s x t, shape b1 b2 x -> shape b1 b2 (snd (rule s x t))) ->
+  (forall s x t, shape b1 b2 x -> Permutation (concat (snd (rule s x t))) (concat x)) ->
+  let r := step_block2d rule id_store b1 b2 (s, false) g t in
+  snd (fst r) = false /\ shape (m1 * b1) (m2 * b2) (snd r) /\ Permutation (concat (snd r)) (concat g).
+Proof.
+  intros H1 H2 Hm1 Hm2 Hg Hs Hp r. subst r.
+  rewrite (step_block2d_ext St rule (guard_b2 b1 b2 rule) id_store b1 b2 (s, false) g t)
+    by (intros; apply guard_b2_eq; assumption).
+  apply block_conserves_2d; try assumption; [apply guard_b2_shape|apply guard_b2_perm]; assumption.
+Qed.
+
+Lemma evolve2d_block_conserves' St (rule : block_rule2 St) b1 b2 m1 m2 s0 hist T :
+  1 <= b1 -> 1 <= b2 -> 1 <= m1 -> 1 <= m2 -> 1 <= T -> hist <> [] ->
+  shape (m1 * b1) (m2 * b2) (last hist []) ->
+  (forall s x t, shape b1 b2 x -> shape b1 b2 (snd (rule s x t))) ->
+  (forall s x t, shape b1 b2 x -> Permutation (concat (snd (rule s x t))) (concat x)) ->
+  exists s news, evolve2d_block rule id_store b1 b2 s0 hist T = Ok (s, hist ++ news) /\ length news = T - 1 /\
+    Forall (fun g' => shape (m1 * b1) (m2 * b2) g' /\ Permutation (concat g') (concat (last hist []))) news.
+Proof.
+  intros H1 H2 Hm1 Hm2 HT Hh Hg Hs Hp.
+  rewrite (evolve2d_block_ext St rule (guard_b2 b1 b2 rule) id_store b1 b2 s0 hist T)
+    by (intros; apply guard_b2_eq; assumption).
+  apply evolve2d_block_conserves; try assumption; [apply guard_b2_shape|apply guard_b2_perm]; assumption.
+Qed.
+
+Lemma guard_f2_shape b1 b2 f : 1 <= b1 -> (forall x t, shape b1 b2 x -> shape b1 b2 (f x t)) ->
+  forall x t h w, shape h w x -> shape h w (guard_f2 b1 b2 f x t).
+Proof.
+  intros Hb H x t h w Hx. unfold guard_f2. destruct (shape_eqb b1 b2 x) eqn:E; [|exact Hx].
+  apply shape_eqb_iff in E. destruct (shape_unique b1 b2 h w x Hb E Hx) as [<- <-]. apply H. exact E.
+Qed.
+
+Lemma guard_f2_inverse b1 b2 f g : (forall x t, shape b1 b2 x -> shape b1 b2 (f x t)) ->
+  (forall x t, shape b1 b2 x -> g (f x t) t = x) ->
+  forall x t, guard_f2 b1 b2 g (guard_f2 b1 b2 f x t) t = x.
+Proof.
+  intros Hf Hgf x t. unfold guard_f2. destruct (shape_eqb b1 b2 x) eqn:E.
+  - assert (Hx : shape b1 b2 x) by (apply shape_eqb_iff; exact E).
+    pose proof (Hf x t Hx) as Hfx. apply shape_eqb_iff in Hfx. rewrite Hfx. apply Hgf. exact Hx.
+  - rewrite E. reflexivity.
+Qed.
+
+Lemma step_pure_guard2 f b1 b2 sb g t :
+  step_block2d (pure_b2 f) id_store b1 b2 sb g t = step_block2d (pure_b2 (guard_f2 b1 b2 f)) id_store b1 b2 sb g t.
+Proof.
+  apply step_block2d_ext. intros s x Hx. unfold pure_b2, guard_f2. apply shape_eqb_iff in Hx. rewrite Hx. reflexivity.
+Qed.
+
+Lemma block_reversible_2d' (f g : grid2 -> nat -> grid2) b1 b2 m1 m2 g0 t :
+  1 <= b1 -> 1 <= b2 -> 1 <= m1 -> 1 <= m2 -> shape (m1 * b1) (m2 * b2) g0 ->
+  (forall x t, shape b1 b2 x -> shape b1 b2 (f x t)) ->
+  (forall x t, shape b1 b2 x -> shape b1 b2 (g x t)) ->
+  (forall x t, shape b1 b2 x -> g (f x t) t = x) ->
+  snd (step_block2d (pure_b2 g) id_store b1 b2 (tt, false)
+        (snd (step_block2d (pure_b2 f) id_store b1 b2 (tt, false) g0 t)) t) = g0.
+Proof.
+  intros H1 H2 Hm1 Hm2 Hg0 Hf Hg Hgf.
+  rewrite (step_pure_guard2 f), (step_pure_guard2 g).
+  apply block_reversible_2d with (m1 := m1) (m2 := m2); try assumption.
+  - apply guard_f2_shape; assumption.
+  - apply guard_f2_shape; assumption.
+  - intros x t' h w _. apply guard_f2_inverse; assumption.
+Qed.
+
+(* ================================================================== whole runs: the call log *)
+Lemma flat_map_seq_shift {B} (F : nat -> list B) n : flat_map F (seq 1 n) = flat_map (fun k => F (S k)) (seq 0 n).
+Proof. rewrite <- seq_shift. apply flat_map_map'. Qed.
+
+Lemma iter_steps_calls_1d St (rule : block_rule St) store b : forall n s lg cur t0,
+  let r := iter_steps (step_block (logged_b rule) store b) n (s, lg) cur t0 in
+  length (snd r) = n /\
+  snd (fst r) = lg ++ flat_map (fun k => map (fun blk => (gather (nth k (cur :: snd r) []) blk, t0 + k))
+                                          (blocks_at (length cur) b (t0 + k))) (seq 0 n).
+Proof.
+  induction n as [|n IH]; intros s lg cur t0; [cbn; rewrite app_nil_r; split; reflexivity|].
+  cbn [iter_steps].
+  pose proof (block_calls_1d St rule store b s lg cur t0) as Hlog.
+  pose proof (step_block_length _ (logged_b rule) store b (s, lg) cur t0) as Hlen.
+  destruct (step_block (logged_b rule) store b (s, lg) cur t0) as [[s1 lg1] nxt]. cbn [fst snd] in Hlog, Hlen.
+  specialize (IH s1 lg1 nxt (S t0)). cbn zeta in IH.
+  destruct (iter_steps (step_block (logged_b rule) store b) n (s1, lg1) nxt (S t0)) as [[s2 lg2] rest].
+  cbn [fst snd] in *. destruct IH as [IHl IHlog]. split; [cbn [length]; lia|].
+  rewrite IHlog, Hlog. rewrite <- app_assoc. f_equal.
+  change (seq 0 (S n)) with (0 :: seq 1 n). cbn [flat_map]. rewrite Nat.add_0_r. cbn [nth]. f_equal.
+  rewrite flat_map_seq_shift. apply flat_map_ext. intros k. cbn [nth].
+  rewrite Hlen. replace (t0 + S k) with (S t0 + k) by lia. reflexivity.
+Qed.
+
+Lemma evolve_block_calls St (rule : block_rule St) store b s0 lg0 hist T s lg rows :
+  evolve_block (logged_b rule) store b (s0, lg0) hist T = Ok ((s, lg), hist ++ rows) ->
+  length rows = T - 1 /\
+  lg = lg0 ++ flat_map (fun t => map (fun blk => (gather (nth (t - 1) (last hist [] :: rows) []) blk, t))
+                                     (blocks_at (length (last hist [])) b t)) (seq 1 (T - 1)).
+Proof.
+  unfold evolve_block. destruct hist as [|h0 hist']; [discriminate|].
+  destruct (b =? 0); [discriminate|]. destruct (negb _); [discriminate|]. destruct (_ =? 0); [discriminate|].
+  unfold evolve_fixed. destruct T as [|k]; [discriminate|].
+  destruct (iter_steps_calls_1d St rule store b k s0 lg0 (last (h0 :: hist') []) 1) as [Hl Hlog]. cbn zeta in Hl, Hlog.
+  destruct (iter_steps (step_block (logged_b rule) store b) k (s0, lg0) (last (h0 :: hist') []) 1) as [[s' lg'] rows'].
+  cbn [fst snd] in *. intros E. injection E as <- <- E. apply app_inv_head in E. subst rows'.
+  replace (S k - 1) with k by lia. split; [exact Hl|]. rewrite Hlog. f_equal.
+  rewrite flat_map_seq_shift. apply flat_map_ext. intros j. replace (S j - 1) with j by lia. reflexivity.
+Qed.
+
+(* ---- 2D *)
+Lemma apply_blocks2_shape St (rule : block_rule2 St) store g t R C : forall blocks s arr,
+  shape R C arr -> shape R C (snd (apply_blocks2 rule store s g arr blocks t)).
+Proof.
+  induction blocks as [|rc rest IH]; intros s arr Ha; [exact Ha|].
+  cbn [apply_blocks2]. destruct (rule s (gather2 g rc) t) as [s1 v].
+  destruct (bcast _ _ v) as [v'|]; [|exact Ha]. apply IH. unfold scatter2.
+  apply (write_all2_shape store R C). exact Ha.
+Qed.
+
+Lemma shape_dims g new : shape (rows_of g) (cols_of g) new -> rows_of new = rows_of g /\ cols_of new = cols_of g.
+Proof.
+  intros H. split; [destruct H as [H _]; exact H|].
+  destruct g as [|r g'].
+  - destruct H as [H _]. destruct new; [reflexivity|discriminate].
+  - apply shape_cols with (R := rows_of (r :: g')); [cbn; lia|exact H].
+Qed.
+
+Lemma step_block2d_dims St (rule : block_rule2 St) store b1 b2 sb g t :
+  let new := snd (step_block2d rule store b1 b2 sb g t) in rows_of new = rows_of g /\ cols_of new = cols_of g.
+Proof.
+  cbn zeta. unfold step_block2d. destruct (snd sb); [split; reflexivity|].
+  pose proof (apply_blocks2_shape St rule store g t (rows_of g) (cols_of g)
+                (blocks2_at (rows_of g) (cols_of g) b1 b2 t) (fst sb) _ (zeros_shape (rows_of g) (cols_of g))) as H.
+  destruct (apply_blocks2 rule store (fst sb) g _ _ t) as [[s' bad] arr]. cbn [snd] in *. apply shape_dims. exact H.
+Qed.
+
+Lemma iter_steps2_bad St (rule : block_rule2 St) store b1 b2 : forall n x cur t,
+  snd (fst (iter_steps (step_block2d rule store b1 b2) n (x, true) cur t)) = true.
+Proof.
+  induction n as [|n IH]; intros x cur t; [reflexivity|].
+  cbn [iter_steps]. unfold step_block2d at 1. cbn [snd].
+  specialize (IH x cur (S t)). destruct (iter_steps (step_block2d rule store b1 b2) n (x, true) cur (S t)) as [x2 rest].
+  exact IH.
+Qed.
+
+Lemma iter_steps_calls_2d St (rule : block_rule2 St) store b1 b2 : forall n s lg cur t0,
+  let r := iter_steps (step_block2d (logged_b2 rule) store b1 b2) n ((s, lg), false) cur t0 in
+  snd (fst r) = false ->
+  length (snd r) = n /\
+  snd (fst (fst r)) = lg ++ flat_map (fun k => map (fun rc => (gather2 (nth k (cur :: snd r) []) rc, t0 + k))
+                                                 (blocks2_at (rows_of cur) (cols_of cur) b1 b2 (t0 + k))) (seq 0 n).
+Proof.
+  induction n as [|n IH]; intros s lg cur t0; [cbn; rewrite app_nil_r; split; reflexivity|].
+  cbn [iter_steps].
+  destruct (block_calls_2d St rule store b1 b2 s lg cur t0) as [k [Hk [Hlog Hbad]]]. cbn zeta in Hlog, Hbad.
+  destruct (step_block2d_dims _ (logged_b2 rule) store b1 b2 ((s, lg), false) cur t0) as [HR HC].
+  destruct (step_block2d (logged_b2 rule) store b1 b2 ((s, lg), false) cur t0) as [[[s1 lg1] bad1] nxt].
+  cbn [fst snd] in Hlog, Hbad, HR, HC. destruct bad1.
+  - pose proof (iter_steps2_bad _ (logged_b2 rule) store b1 b2 n (s1, lg1) nxt (S t0)) as Hb.
+    destruct (iter_steps (step_block2d (logged_b2 rule) store b1 b2) n ((s1, lg1), true) nxt (S t0)) as [x2 rest].
+    cbn [fst snd] in *. intros Hf. congruence.
+  - specialize (IH s1 lg1 nxt (S t0)). cbn zeta in IH.
+    destruct (iter_steps (step_block2d (logged_b2 rule) store b1 b2) n ((s1, lg1), false) nxt (S t0)) as [[[s2 lg2] bad2] rest].
+    cbn [fst snd] in *. intros Hf. destruct (IH Hf) as [IHl IHlog]. split; [cbn [length]; lia|].
+    rewrite IHlog, Hlog. rewrite (Hbad eq_refl), firstn_all. rewrite <- app_assoc. f_equal.
+    change (seq 0 (S n)) with (0 :: seq 1 n). cbn [flat_map]. rewrite Nat.add_0_r. cbn [nth]. f_equal.
+    rewrite flat_map_seq_shift. apply flat_map_ext. intros j. cbn [nth].
+    rewrite HR, HC. replace (t0 + S j) with (S t0 + j) by lia. reflexivity.
+Qed.
+
+Lemma evolve2d_block_calls St (rule : block_rule2 St) store b1 b2 s0 lg0 (hist : list grid2) T s lg grids :
+  evolve2d_block (logged_b2 rule) store b1 b2 (s0, lg0) hist T = Ok ((s, lg), hist ++ grids) ->
+  length grids = T - 1 /\
+  lg = lg0 ++ flat_map (fun t => map (fun rc => (gather2 (nth (t - 1) (last hist [] :: grids) []) rc, t))
+                                     (blocks2_at (rows_of (last hist [])) (cols_of (last hist [])) b1 b2 t))
+                       (seq 1 (T - 1)).
+Proof.
+  unfold evolve2d_block. destruct hist as [|h0 hist']; [discriminate|]. cbv zeta.
+  destruct (T =? 0); [discriminate|]. destruct (_ || _); [discriminate|]. destruct (_ || _); [discriminate|].
+  unfold evolve_fixed. destruct T as [|k]; [discriminate|].
+  pose proof (iter_steps_calls_2d St rule store b1 b2 k s0 lg0 (last (h0 :: hist') []) 1) as H. cbn zeta in H.
+  unfold grid2 in *.
+  match type of H with snd (fst ?it) = false -> _ => destruct it as [[[s' lg'] bad] rows'] end.
+  cbn [fst snd] in *. destruct bad; [discriminate|]. destruct (H eq_refl) as [Hl Hlog].
+  intros E. injection E as <- <- E. apply app_inv_head in E. subst rows'.
+  replace (S k - 1) with k by lia. split; [exact Hl|]. rewrite Hlog. f_equal.
+  rewrite flat_map_seq_shift. apply flat_map_ext. intros j. replace (S j - 1) with j by lia. reflexivity.
+Qed.
+
+(* ================================================================== whole runs: injectivity of the T-step map *)
+Lemma last_app_cons {A} (d : A) : forall h news, h <> [] -> last (h ++ news) d = last (last h d :: news) d.
+Proof.
+  induction h as [|x h IH]; intros news Hh; [congruence|].
+  destruct h as [|y h]; [reflexivity|].
+  change (last ((x :: y :: h) ++ news) d) with (last ((y :: h) ++ news) d).
+  change (last (x :: y :: h) d) with (last (y :: h) d). apply IH. discriminate.
+Qed.
+
+Lemma iter_steps_unit_snd {C} (step : unit -> C -> nat -> unit * C) n c t :
+  snd (iter_steps step (S n) tt c t) = snd (step tt c t) :: snd (iter_steps step n tt (snd (step tt c t)) (S t)).
+Proof.
+  cbn [iter_steps]. destruct (step tt c t) as [[] nxt]. cbn [snd].
+  destruct (iter_steps step n tt nxt (S t)) as [x2 rest]. reflexivity.
+Qed.
+
+Lemma iter_steps_injective_1d (f g : list Z -> nat -> list Z) b : 1 <= b ->
+  (forall x t, length x = b -> length (f x t) = b) -> (forall x t, length x = b -> length (g x t) = b) ->
+  (forall x t, length x = b -> g (f x t) t = x) ->
+  forall n c1 c2 t0 m m', length c1 = m * b -> length c2 = m' * b ->
+  last (c1 :: snd (iter_steps (step_block (pure_b f) id_store b) n tt c1 t0)) [] =
+  last (c2 :: snd (iter_steps (step_block (pure_b f) id_store b) n tt c2 t0)) [] -> c1 = c2.
+Proof.
+  intros Hb Hf Hg Hgf. induction n as [|n IH]; intros c1 c2 t0 m m' H1 H2 E; [exact E|].
+  rewrite !iter_steps_unit_snd in E.
+  set (n1 := snd (step_block (pure_b f) id_store b tt c1 t0)) in *.
+  set (n2 := snd (step_block (pure_b f) id_store b tt c2 t0)) in *.
+  match type of E with last (c1 :: n1 :: ?l) [] = _ => change (last (c1 :: n1 :: l) []) with (last (n1 :: l) []) in E end.
+  match type of E with _ = last (c2 :: n2 :: ?l) [] => change (last (c2 :: n2 :: l) []) with (last (n2 :: l) []) in E end.
+  assert (En : n1 = n2).
+  { apply (IH n1 n2 (S t0) m m'); [unfold n1; rewrite step_block_length; exact H1|unfold n2; rewrite step_block_length; exact H2|exact E]. }
+  rewrite <- (block_reversible_1d' f g b m c1 t0 Hb H1 Hf Hg Hgf).
+  rewrite <- (block_reversible_1d' f g b m' c2 t0 Hb H2 Hf Hg Hgf). fold n1 n2. rewrite En. reflexivity.
+Qed.
+
+Lemma evolve_block_injective (f g : list Z -> nat -> list Z) b T h1 h2 r1 r2 : 1 <= b ->
+  (forall x t, length x = b -> length (f x t) = b) -> (forall x t, length x = b -> length (g x t) = b) ->
+  (forall x t, length x = b -> g (f x t) t = x) ->
+  evolve_block (pure_b f) id_store b tt h1 T = Ok (tt, r1) ->
+  evolve_block (pure_b f) id_store b tt h2 T = Ok (tt, r2) ->
+  last r1 [] = last r2 [] -> last h1 [] = last h2 [].
+Proof.
+  intros Hb Hf Hg Hgf E1 E2 El.
+  assert (Hrun : forall h r, evolve_block (pure_b f) id_store b tt h T = Ok (tt, r) ->
+            exists m k, T = S k /\ length (last h []) = m * b /\
+              last r [] = last (last h [] :: snd (iter_steps (step_block (pure_b f) id_store b) k tt (last h []) 1)) []).
+  { intros h r. unfold evolve_block. destruct h as [|h0 h']; [discriminate|].
+    destruct (b =? 0); [discriminate|].
+    destruct (length (last (h0 :: h') []) mod b =? 0) eqn:Em; cbn [negb]; [|discriminate].
+    destruct (length (last (h0 :: h') []) =? 0); [discriminate|]. unfold evolve_fixed. destruct T as [|k]; [discriminate|].
+    apply Nat.eqb_eq in Em. apply Nat.mod_divides in Em; [|lia]. destruct Em as [m Em].
+    destruct (iter_steps (step_block (pure_b f) id_store b) k tt (last (h0 :: h') []) 1) as [x rows] eqn:Ei.
+    intros E. injection E as _ <-. exists m, k. split; [reflexivity|]. split; [rewrite Em; apply Nat.mul_comm|].
+    rewrite Ei. cbn [snd]. apply (last_app_cons [] (h0 :: h') rows). discriminate. }
+  destruct (Hrun h1 r1 E1) as [m [k [HT [Hl1 Hr1]]]]. destruct (Hrun h2 r2 E2) as [m' [k' [HT' [Hl2 Hr2]]]].
+  assert (k' = k) by congruence. subst k'.
+  apply (iter_steps_injective_1d f g b Hb Hf Hg Hgf k _ _ 1 m m' Hl1 Hl2). congruence.
+Qed.
+
+(* ---- 2D *)
+Lemma step_pure2_state f b1 b2 g t : 1 <= b1 -> (forall x t, shape b1 b2 x -> shape b1 b2 (f x t)) ->
+  fst (step_block2d (pure_b2 f) id_store b1 b2 (tt, false) g t) = (tt, false).
+Proof.
+  intros Hb Hf. rewrite step_pure_guard2.
+  rewrite step_block2d_eq by (intros s x t' h w Hx; apply (guard_f2_shape b1 b2 f Hb Hf); exact Hx).
+  cbn [fst]. destruct (fst (run_blocks2 _ _ _ _ _)). reflexivity.
+Qed.
+
+Lemma step_pure2_shape f b1 b2 R C g t : 1 <= b1 -> 1 <= R -> (forall x t, shape b1 b2 x -> shape b1 b2 (f x t)) ->
+  shape R C g -> shape R C (snd (step_block2d (pure_b2 f) id_store b1 b2 (tt, false) g t)).
+Proof.
+  intros Hb HR Hf Hg. rewrite step_pure_guard2.
+  assert (E1 : rows_of g = R) by (destruct Hg as [H _]; exact H).
+  assert (E2 : cols_of g = C) by (apply shape_cols with (R := R); assumption).
+  rewrite <- E1, <- E2. apply step_block2d_shape.
+  intros s x t' h w Hx. apply (guard_f2_shape b1 b2 f Hb Hf). exact Hx.
+Qed.
+
+Lemma iter_steps_pure2_snd f b1 b2 n c t : 1 <= b1 -> (forall x t, shape b1 b2 x -> shape b1 b2 (f x t)) ->
+  let step := step_block2d (pure_b2 f) id_store b1 b2 in
+  iter_steps step (S n) (tt, false) c t =
+  (fst (iter_steps step n (tt, false) (snd (step (tt, false) c t)) (S t)),
+   snd (step (tt, false) c t) :: snd (iter_steps step n (tt, false) (snd (step (tt, false) c t)) (S t))).
+Proof.
+  intros Hb Hf step. cbn [iter_steps]. pose proof (step_pure2_state f b1 b2 c t Hb Hf) as Hs. fold step in Hs.
+  destruct (step (tt, false) c t) as [x1 nxt]. cbn [fst snd] in *. subst x1.
+  destruct (iter_steps step n (tt, false) nxt (S t)) as [x2 rest]. reflexivity.
+Qed.
+
+Lemma iter_steps_injective_2d (f g : grid2 -> nat -> grid2) b1 b2 m1 m2 :
+  1 <= b1 -> 1 <= b2 -> 1 <= m1 -> 1 <= m2 ->
+  (forall x t, shape b1 b2 x -> shape b1 b2 (f x t)) -> (forall x t, shape b1 b2 x -> shape b1 b2 (g x t)) ->
+  (forall x t, shape b1 b2 x -> g (f x t) t = x) ->
+  forall n c1 c2 t0, shape (m1 * b1) (m2 * b2) c1 -> shape (m1 * b1) (m2 * b2) c2 ->
+  last (c1 :: snd (iter_steps (step_block2d (pure_b2 f) id_store b1 b2) n (tt, false) c1 t0)) [] =
+  last (c2 :: snd (iter_steps (step_block2d (pure_b2 f) id_store b1 b2) n (tt, false) c2 t0)) [] -> c1 = c2.
+Proof.
+  intros H1 H2 Hm1 Hm2 Hf Hg Hgf. induction n as [|n IH]; intros c1 c2 t0 S1 S2 E; [exact E|].
+  rewrite !(iter_steps_pure2_snd f b1 b2 n _ t0 H1 Hf) in E. cbn zeta in E. cbn [snd] in E.
+  set (n1 := snd (step_block2d (pure_b2 f) id_store b1 b2 (tt, false) c1 t0)) in *.
+  set (n2 := snd (step_block2d (pure_b2 f) id_store b1 b2 (tt, false) c2 t0)) in *.
+  match type of E with last (c1 :: n1 :: ?l) [] = _ => change (last (c1 :: n1 :: l) []) with (last (n1 :: l) []) in E end.
+  match type of E with _ = last (c2 :: n2 :: ?l) [] => change (last (c2 :: n2 :: l) []) with (last (n2 :: l) []) in E end.
+  assert (HR : 1 <= m1 * b1) by (destruct m1; [lia|cbn; lia]).
+  assert (En : n1 = n2).
+  { apply (IH n1 n2 (S t0)); [apply step_pure2_shape; assumption|apply step_pure2_shape; assumption|exact E]. }
+  rewrite <- (block_reversible_2d' f g b1 b2 m1 m2 c1 t0) by assumption.
+  rewrite <- (block_reversible_2d' f g b1 b2 m1 m2 c2 t0) by assumption. fold n1 n2. rewrite En. reflexivity.
+Qed.
+
+Lemma evolve2d_block_injective (f g : grid2 -> nat -> grid2) b1 b2 m1 m2 T (h1 h2 r1 r2 : list grid2) :
+  1 <= b1 -> 1 <= b2 -> 1 <= m1 -> 1 <= m2 ->
+  (forall x t, shape b1 b2 x -> shape b1 b2 (f x t)) -> (forall x t, shape b1 b2 x -> shape b1 b2 (g x t)) ->
+  (forall x t, shape b1 b2 x -> g (f x t) t = x) ->
+  shape (m1 * b1) (m2 * b2) (last h1 []) -> shape (m1 * b1) (m2 * b2) (last h2 []) ->
+  evolve2d_block (pure_b2 f) id_store b1 b2 tt h1 T = Ok (tt, r1) ->
+  evolve2d_block (pure_b2 f) id_store b1 b2 tt h2 T = Ok (tt, r2) ->
+  last r1 [] = last r2 [] -> last h1 [] = last h2 [].
+Proof.
+  intros H1 H2 Hm1 Hm2 Hf Hg Hgf S1 S2 E1 E2 El.
+  assert (Hrun : forall (h r : list grid2), evolve2d_block (pure_b2 f) id_store b1 b2 tt h T = Ok (tt, r) ->
+            exists k, T = S k /\
+              last r [] = last (last h [] :: snd (iter_steps (step_block2d (pure_b2 f) id_store b1 b2) k (tt, false) (last h []) 1)) []).
+  { intros h r. unfold evolve2d_block. destruct h as [|h0 h']; [discriminate|]. cbv zeta.
+    destruct (T =? 0); [discriminate|]. destruct (_ || _); [discriminate|]. destruct (_ || _); [discriminate|].
+    unfold evolve_fixed. destruct T as [|k]; [discriminate|]. unfold grid2 in *.
+    match goal with |- context [@iter_steps ?X ?C ?a ?b ?c ?d ?e] =>
+      destruct (@iter_steps X C a b c d e) as [[x bad] rows] eqn:Ei end.
+    destruct bad; [discriminate|]. intros E. injection E as _ <-. exists k. split; [reflexivity|].
+    rewrite Ei. cbn [snd]. apply (last_app_cons [] (h0 :: h') rows). discriminate. }
+  destruct (Hrun h1 r1 E1) as [k [HT Hr1]]. destruct (Hrun h2 r2 E2) as [k' [HT' Hr2]].
+  assert (k' = k) by congruence. subst k'.
+  apply (iter_steps_injective_2d f g b1 b2 m1 m2 H1 H2 Hm1 Hm2 Hf Hg Hgf k _ _ 1 S1 S2). congruence.
+Qed.
+
+(* ---- write-back, hypotheses restricted to the block size *)
+Lemma step_pure_gather' h b m cells t blk :
+  1 <= b -> length cells = m * b -> (forall x t, length x = b -> length (h x t) = b) ->
+  In blk (blocks_at (length cells) b t) ->
+  gather (snd (step_block (pure_b h) id_store b tt cells t)) blk = h (gather cells blk) t.
+Proof.
+  intros Hb Hl Hh Hin. rewrite (step_pure_guard h b m cells t Hb Hl).
+  rewrite step_pure_gather; [|exact Hb|apply guard_f_length; exact Hh|exact Hin].
+  unfold guard_f. rewrite gather_length. rewrite Hl in Hin. rewrite (blocks_at_len b m t blk Hb Hin), Nat.eqb_refl. reflexivity.
+Qed.
+
+Lemma step_pure_gather2' h b1 b2 m1 m2 g t rc :
+  1 <= b1 -> 1 <= b2 -> 1 <= m1 -> 1 <= m2 -> shape (m1 * b1) (m2 * b2) g ->
+  (forall x t, shape b1 b2 x -> shape b1 b2 (h x t)) ->
+  In rc (blocks2_at (m1 * b1) (m2 * b2) b1 b2 t) ->
+  gather2 (snd (step_block2d (pure_b2 h) id_store b1 b2 (tt, false) g t)) rc = h (gather2 g rc) t.
+Proof.
+  intros H1 H2 Hm1 Hm2 Hg Hh Hin. rewrite step_pure_guard2.
+  rewrite (step_pure_gather2 (guard_f2 b1 b2 h) b1 b2 m1 m2 g t rc) by (try assumption; apply guard_f2_shape; assumption).
+  unfold guard_f2. destruct (blocks2_at_dims _ _ _ _ _ _ Hin) as [E1 E2].
+  pose proof (gather2_shape g rc) as Hs. rewrite E1, E2 in Hs. apply shape_eqb_iff in Hs. rewrite Hs. reflexivity.
+Qed.
+
+(* a rule written for exactly two cells (it returns () for anything else) *)
+Definition swap2 (x : list Z) (t : nat) : list Z := match x with [a; b] => [b; a] | _ => [] end.
+
+Lemma swap2_props :
+  (forall x t, length x = 2 -> length (swap2 x t) = 2) /\
+  (forall x t, length x = 2 -> swap2 (swap2 x t) t = x) /\
+  (forall (s : unit) x t, length x = 2 -> Permutation (snd (pure_b swap2 s x t)) x).
+Proof.
+  split; [|split]; intros; destruct x as [|a [|b [|c x]]]; try discriminate; cbn; try reflexivity. apply perm_swap.
+Qed.
